@@ -88,7 +88,7 @@ func init() {
 			ti, shard := splitUnit(unit, c08Shards)
 			t := importTemplates()[ti]
 			k := 2
-			if ctx.Thorough() && len(gen.Gaps(t.Src)) <= 60 {
+			if ctx.Thorough() && len(gen.Gaps(t.Src)) <= 50 {
 				k = 3
 			}
 			forEachCanonical(ctx, t, gen.Sigma, k, shard, c08Shards, func(gc GapCase) {
